@@ -40,13 +40,35 @@ def walkers(prog):
     return cr, out
 
 
-def child_reads(prog, w):
+def child_reads(prog, w, param_index=1, depth=1):
     """attr -> list of nodes where the walker reads that attribute of its
     check parameter (directly, via getattr, or via a literal tuple of
     attribute names)."""
-    p = w.params[1]
+    p = w.params[param_index]
     reads = {}
     for n in walk_no_nested(w.node):
+        if depth > 0 and isinstance(n, ast.Call) and any(
+                isinstance(a, ast.Name) and a.id == p for a in n.args):
+            # a helper that is handed the check and answers with (some of)
+            # its children
+            g = prog.callee_of(w, n)
+            if g is not None and g is not w and not any(
+                    isinstance(c, ast.Call) and prog.callee_of(g, c) is g
+                    for c in ast.walk(g.node)):
+                off = 1 if (g.cls is not None and not g.is_static
+                            and isinstance(n.func, ast.Attribute)) else 0
+                for i, a in enumerate(n.args):
+                    if not (isinstance(a, ast.Name) and a.id == p):
+                        continue
+                    if i + off >= len(g.params):
+                        continue
+                    sub = child_reads(prog, g, i + off, depth - 1)
+                    rets = [r.value for r in walk_no_nested(g.node)
+                            if isinstance(r, ast.Return)
+                            and r.value is not None]
+                    for attr, srcs in sub.items():
+                        if any(flows(g, srcs, r) for r in rets):
+                            reads.setdefault(attr, []).append(n)
         if isinstance(n, ast.Attribute) and isinstance(n.value, ast.Name) \
                 and n.value.id == p and isinstance(n.ctx, ast.Load):
             reads.setdefault(n.attr, []).append(n)
@@ -283,7 +305,28 @@ def check_walker_paths(ctx, ws):
                     w.module, c.expr.args[1]) == alias for c in p.conds)
             if isalias_true:
                 continue            # a leaf reference has no children
+            # the check is known to be of class K on this path: it is not
+            # of a class unrelated to K (no package class derives from both)
+            is_a = set()
+            for c in p.conds:
+                if c.kind == 'test' and c.pol and isinstance(
+                        c.expr, ast.Call) and U(c.expr.func) == \
+                        'isinstance' and len(c.expr.args) == 2 and U(
+                            c.expr.args[0]) == p_check and not isinstance(
+                                c.expr.args[1], ast.Tuple):
+                    k = prog.resolve(w.module, c.expr.args[1])
+                    if k and k.replace(POLICY, CHECKS) in classes:
+                        is_a.add(k.replace(POLICY, CHECKS))
+
+            def unrelated(k, q):
+                if k == q:
+                    return False
+                subs_k = set(prog.subclasses(k))
+                subs_q = set(prog.subclasses(q))
+                return not (subs_k & subs_q)
             for q, a in holders.items():
+                if is_a and all(unrelated(k, q) for k in is_a):
+                    continue
                 seen_attr = any(reads_attr(c.expr, a) for c in p.conds
                                 if c.kind in ('test', 'loop'))
                 seen_cls = any(
@@ -367,13 +410,21 @@ def check_walker_paths(ctx, ws):
                     a0 = e.node.args[0] if e.node.args else None
                     a1 = e.node.args[1] if len(e.node.args) > 1 else kwarg(
                         e.node, seen_p)
-                    if a0 is not None and U(a0) == \
-                            'self.rules[%s.match]' % p_check:
+                    a0x = t.expand(a0) if a0 is not None else None
+                    via_get = isinstance(a0x, ast.Call) and method_call(
+                        a0x, 'get') and U(method_call(a0x)[0]) == \
+                        'self.rules' and a0x.args and U(t.expand(
+                            a0x.args[0])) == p_check + '.match' and (
+                                len(a0x.args) == 1 or is_const(
+                                    a0x.args[1], None)) and \
+                        'get' not in prog.cls(POLICY + '.Rules').methods
+                    if a0 is not None and (U(a0x) == 'self.rules[%s.match]'
+                                           % p_check or via_get):
                         n_desc += 1
                         added = any(
                             x.kind == 'call' and method_call(x.node, 'add')
                             and is_seen(method_call(x.node)[0]) and
-                            U(x.node.args[0]) == p_check + '.match'
+                            U(t.expand(x.node.args[0])) == p_check + '.match'
                             for x in evs[:i])
                         if not added:
                             add_ok = False
@@ -384,7 +435,10 @@ def check_walker_paths(ctx, ws):
                                         c.expr.left) == p_check + '.match'
                             and U(c.expr.comparators[0]) == 'self.rules'
                             for c in p.conds[:e.nconds])
-                        if not defined:
+                        if not defined and not via_get:
+                            # (dict.get never falls back on the default
+                            # rule: an undefined name yields None, which
+                            # has no children)
                             lookup_ok = False
                         if a1 is None or U(a1) != seen_p:
                             # passing a copy here is fine too
